@@ -268,6 +268,10 @@ func init() {
 		"Structural necessary conditions of 'singleton: constructed once, the same instance everywhere': who may write/delete the singleton table; the Singleton clause of resolution only reads the table; createInstance is called only from the initializer pass, the scoped/transient clauses and eager creation, where it is dominated by the Lifetime==Singleton test and by the already-present test on the descriptor's full key; Build returns only after a checked eager creation that walks the topological order; the graph sees every dependency of a descriptor verbatim; the resolution entry points memoise nothing; family fan-out for multi-output constructors (As family: known finding D1); key literals keep every identity component. NOT decided: invocation counts and pointer identity.",
 		commonAssumptions, func(w *World, r *Report) {
 			la := NewLockAnalysis(w)
+			r.Rule("R01.12", 4, "the tables that hold instances are keyed by service type, key and group")
+			r.Try(func() { ruleInstanceTableKeyType(w, r, "R01.12") })
+			r.Rule("R01.11", 1, "every descriptor derived from a registration (alias, multi-output) runs the function that was registered: its Constructor and Instance never come from the shared analysis record")
+			r.Try(func() { ruleDescriptorConstructorSource(w, r, "R01.11") })
 			r.Rule("R01.1", 3, "who-may-write the singleton table")
 			r.Rule("R01.2", 1, "the Singleton clause of resolve cannot reach a constructor")
 			r.Rule("R01.2b", 8, "resolution entry points and lookups store nothing themselves")
@@ -326,6 +330,8 @@ func init() {
 			r.Try(func() { ruleAtomicRMW(w, r, "R02.10", la) })
 			r.Rule("R02.11", 1, "a failed construction leaves no trace and may be retried: no error exit of resolve is reachable with state recorded by resolve or its helpers and not retired")
 			r.Try(func() { ruleResolveWritesNothing(w, r, "R02.11") })
+			r.Rule("R02.15", 4, "the tables that hold instances are keyed by service type, key and group")
+			r.Try(func() { ruleInstanceTableKeyType(w, r, "R02.15") })
 			r.Rule("R02.12", 5, "initializers and constructors are never identified by their code pointer alone (closures of one literal share it: de-duplicating by it makes all but one of them run zero times)")
 			r.Try(func() { ruleFunctionIdentity(w, r, "R02.12") })
 			r.Rule("R02.13", 1, "only scoped result-less registrations enter the list of per-scope initializers")
@@ -358,6 +364,8 @@ func init() {
 			r.Try(func() { ruleCreateChain(w, r, "R03.5") })
 			r.Rule("R03.6", 3, "every descriptor derived for a multi-output registration copies Lifetime from the base descriptor (the zero value is Singleton)")
 			r.Try(func() { ruleFamilyCopies(w, r, "R03.6") })
+			r.Rule("R03.8", 1, "a group is resolved member by member in every call: GetGroup returns only lists it assembled from its own resolutions")
+			r.Try(func() { ruleGroupResolvedPerCall(w, r, "R03.8") })
 			r.Rule("R03.7", 1, "no recycled storage on the resolution path (no sync.Pool)")
 			r.Try(func() { ruleNoPooledInvocationState(w, r, "R03.7") })
 		})
@@ -378,6 +386,8 @@ func init() {
 			r.Try(func() { ruleOptionalOnly(w, r, "R04.5") })
 			r.Try(func() { ruleKeyLiterals(w, r, "R04.7") })
 			r.Try(func() { ruleGraphSeesAllDependencies(w, r, "R04.8") })
+			r.Rule("R04.11", 4, "the tables that hold instances are keyed by service type, key and group (what is injected for one group is not another group's member)")
+			r.Try(func() { ruleInstanceTableKeyType(w, r, "R04.11") })
 			r.Rule("R04.9", 1, "a descriptor's Constructor is reflect.ValueOf of the value registered, never a value from the shared analysis cache")
 			r.Try(func() { ruleDescriptorConstructorSource(w, r, "R04.9") })
 			r.Rule("R04.10", 2, "the descriptor list keeps registration order (append, reset, order-preserving delete only)")
@@ -399,6 +409,9 @@ func init() {
 			r.Try(func() { ruleProviderOnlyFromBuild(w, r, "R05.2") })
 			r.Try(func() { ruleSearchComplete(w, r, "R05.3") })
 			r.Try(func() { ruleGroupLinkGraph(w, r, "R05.4") })
+			r.Rule("R05.12", 4, "the cycle check never answers from a stale cache: every graph change (a rejected, rolled-back add included) invalidates it")
+			r.Rule("R05.12c", 1, "the sorted-order cache is written only together with clearing its dirty flag")
+			r.Try(func() { checkGraphCaches(w, r, "R05.12", "", "R05.12c") })
 			r.Try(func() { ruleGraphSeesAllDependencies(w, r, "R05.5") })
 			r.Try(func() { ruleDeferredAddTotal(w, r, "R05.6") })
 			r.Try(func() { ruleKeyLiterals(w, r, "R05.7") })
@@ -421,6 +434,8 @@ func init() {
 			r.Rule("R06.3c", 1, "sorted-order cache written only with its flag cleared")
 			r.Rule("R06.4", 4, "validation verdicts do not depend on registration order: table complete before checks; every validation step runs on every path")
 			r.Try(func() { ruleGroupLinkGraph(w, r, "R06.1") })
+			r.Rule("R06.10", 2, "the lifetime table is keyed by the full identity of a registration: a verdict never depends on which of two registrations of one type was written last")
+			r.Try(func() { reexportC07(w, r, "R06.10", "R07.4") })
 			r.Try(func() { ruleBuildPipeline(w, r, "R06.1b", "R06.4", "R06.4", "R06.4", "") })
 			r.Try(func() { ruleGraphSeesAllDependencies(w, r, "R06.1b") })
 			r.Try(func() { ruleSortedCreation(w, r, "R06.2") })
